@@ -327,16 +327,12 @@ Definition tcancel_step (s : st) (key : nat) : st :=
   end.
 
 (* ctxCancel() wakes every worker parked in the outer select *)
-Fixpoint wake_ctx (s : st) (ws : list wst) : st * list wst :=
-  match ws with
-  | [] => (s, [])
-  | w :: r =>
-      let '(s1, r') := wake_ctx s r in
-      match w with
-      | WParked e => let '(s2, w') := ctx_branch s1 e in (s2, w' :: r')
-      | _ => (s1, w :: r')
-      end
+Definition wake_ctx_at (s : st) (w : nat) : st :=
+  match nth_error (workers s) w with
+  | Some (WParked e) => let p := ctx_branch s e in set_workers (fst p) (wupd (workers (fst p)) w (snd p))
+  | _ => s
   end.
+Definition wake_ctx (s : st) : st := fold_left wake_ctx_at (seq 0 (length (workers s))) s.
 
 Fixpoint discard_all (s : st) (h : list elem) : st :=
   match h with [] => s | x :: r => discard_all (emit s (EDiscard (eid x))) r end.
@@ -345,8 +341,7 @@ Fixpoint discard_all (s : st) (h : list elem) : st :=
 Definition shutdown_step (s : st) (fc fi : bool) : st :=
   if shut s then s else
   let s1 := emit (set_shut s fc fi) (EShutdown fc fi (now s)) in
-  let '(s2, ws) := wake_ctx s1 (workers s1) in
-  let s3 := set_workers s2 ws in
+  let s3 := wake_ctx s1 in
   let s4 := match heap s3 with
             | [] => s3
             | h => if fc then set_heap (discard_all s3 h) [] else s3
